@@ -196,7 +196,11 @@ def rule_transformed_before_executed(ctx):
     ctx.floor("C01.d traces", n, 1)
 
 
+from .c08 import rule_client_side, rule_server_side  # noqa: E402  (bound parameters are one of C01's ingestion paths)
+
 RULES = [
+    ("C01.e", rule_client_side, ("quick", "thorough")),
+    ("C01.f", rule_server_side, ("quick", "thorough")),
     ("C01.a", rule_width, ("quick", "thorough")),
     ("C01.b", rule_utc, ("quick", "thorough")),
     ("C01.c", rule_pandas, ("quick", "thorough")),
